@@ -308,7 +308,7 @@ def run(c):
     c.cov["streams"]["mutation-sweep"]["nontrivial"] = nontrivial
     c.cov["rule"] = ("inputs = every single-member mutation (delete, null, retype to number/string/array/object, duplicate "
                      "array element, [null], empty/huge numbers and strings, unknown currency/country/regime/addon codes, "
-                     "empty/null signatures, nil head links/stamps, deep nesting) of every example output document, plus "
+                     "empty/null signatures, nil head links/stamps, deep nesting) of every example output document, the same mutations applied to the header carried INSIDE a real signature (forged-* kinds: payload signed by the harness key, envelope header rich in stamps/links/tags/meta; verified with, without and with explicit keys), plus "
                      "seeded random bytes/JSON/YAML/corruptions; each is a distinct (document, member, mutation) triple by "
                      "construction; non-trivial = inputs that parse and reach calculation (the others exercise the parser only)")
     judge_records(c, recs, "sweep")
